@@ -255,6 +255,15 @@ Definition tmpl_params (m : meth) : list string :=
 Definition sample_function (rpc_name : string) : string := "sample_" ++ snake rpc_name.
 Definition sample_file (id : string) : string := snake id ++ ".py".
 
+(* ================================================================ G. SnippetIndex.add_snippet / get_snippet
+   add_snippet files a snippet in the "async" slot of its (service, rpc) when the metadata's async flag is set (the flag
+   _fill_sample_metadata derives from the transport), in the "sync" slot otherwise; a later snippet replaces an earlier one
+   in the same slot.  get_snippet(service, rpc, sync) reads the slot; the client templates ask with sync=True, the asyncio
+   client templates with sync=False. *)
+Definition slot_async (sp : spec) : bool := meta_async (sp_transport sp).
+Definition index_get (added : list spec) (svc rpc : string) (sync : bool) : option spec :=
+  last_opt (filter (fun sp => (String.eqb (sp_service sp) svc && String.eqb (sp_rpc sp) rpc) && Bool.eqb (slot_async sp) (negb sync)) added).
+
 (* ================================================================ comparison helpers for the harness *)
 Definition segs_list (g : segs) : list nat :=
   [full_s g; full_e g; ci_s g; ci_e g; ri_s g; ri_e g; re_s g; re_e g; rh_s g; rh_e g].
